@@ -255,7 +255,8 @@ class Exec:
             s.env['result'] = oc[1]
             node = oc[2]
             for i, e in enumerate(self.contract.ensures):
-                self.emit(s, 'post#%d' % i, self.eval_spec(e, s), node, e)
+                self.emit(s, 'post#%d' % i, self.eval_spec(e, s), node,
+                          e if isinstance(e, str) else (getattr(e, '__doc__', None) or 'postcondition given as a function in the contract file'))
             for exc, cond in self.contract.ensures_exc.items():
                 self.emit(s, 'post-noexc:%s' % exc, bnot(self.eval_spec(cond, s, entry=True)), node,
                           'normal return implies not (%s)' % cond)
@@ -1293,6 +1294,8 @@ class Exec:
         if isinstance(cont, SeqVal):
             return z3.Contains(cont.s, z3.Unit(cont.elem.pack(x)))
         if isinstance(cont, lib.DictVal):
+            return cont.has(x)
+        if isinstance(cont, lib.SetVal):
             return cont.has(x)
         if isinstance(cont, dict):
             return bor(*[s_eq(x, k) for k in cont])
